@@ -242,9 +242,11 @@ def eval_static(case):
                 sorted(map(str, got - want)), sorted(map(str, want - got)))))
         if cls.yaml_multi_constructors:
             failures.append(Failure("static:multi-constructor-table:%s" % name, repr(sorted(map(str, cls.yaml_multi_constructors)))))
+        # a core tag must not be bound to a function of the full / unsafe constructor classes (which function implements a core
+        # tag is otherwise the library's business: wrappers and decorators are fine)
         for tag, fn in cls.yaml_constructors.items():
             qn = getattr(fn, "__qualname__", "")
-            if not qn.startswith("SafeConstructor."):
+            if qn.startswith(("FullConstructor.", "UnsafeConstructor.", "Constructor.")):
                 failures.append(Failure("static:foreign-function:%s" % name, "%r -> %s" % (tag, qn)))
         if cls.yaml_constructors.get(None) is not C.SafeConstructor.construct_undefined:
             failures.append(Failure("static:undefined-handler:%s" % name, repr(cls.yaml_constructors.get(None))))
